@@ -37,6 +37,15 @@ Theorem C02_olcdm_guard : forall (Ls : R) zs1 zs2a zs2b om ok h l0 l1 l2 u0 u1 u
   yields (Gt Ls om ok h) 100 (CFun src_CosmoLikelihood_likelihood) (Some (cl_obj (lenses zs1 zs2a zs2b) "oLCDM" l0 l1 l2 u0 u1 u2)) [VList [num x0; num x1; num x2]] [] rg cu
     (VNum NegInf) cu [("args2kwargs", [VList [num x0; num x1; num x2]])].
 Proof. exact olcdm_guard_rejects. Qed.
+(* a supplied distance table with its own curvature entries does not blind the guard: it judges the SAMPLED (om, ok) *)
+Theorem C02_olcdm_guard_judges_sampled_curvature : forall (Ls : R) zs1 zs2a zs2b om ok h okt kt (tab zz : val) l0 l1 l2 u0 u1 u2 x0 x1 x2 rg cu,
+  inside l0 u0 x0 -> inside l1 u1 x1 -> inside l2 u2 x2 ->
+  E2 om ok zs1 <= 0 \/ E2 om ok zs2b <= 0 \/ E2 om ok 1100 <= 0 \/ 1 - om - ok <= 0 ->
+  yields (Gt Ls om ok h) 100 (CFun src_CosmoLikelihood_likelihood) (Some (cl_obj (lenses zs1 zs2a zs2b) "oLCDM" l0 l1 l2 u0 u1 u2)) [VList [num x0; num x1; num x2]]
+    [("kwargs_cosmo_interp", dict [("ang_diameter_distances", tab); ("redshifts", zz); ("ok", num okt); ("K", num kt)])] rg cu
+    (VNum NegInf) cu [("args2kwargs", [VList [num x0; num x1; num x2]])].
+Proof. exact olcdm_guard_judges_sampled_curvature. Qed.
+Print Assumptions C02_olcdm_guard_judges_sampled_curvature.
 Theorem C02_olcdm_guard_passes : forall (Ls : R) zs1 zs2a zs2b om ok h l0 l1 l2 u0 u1 u2 x0 x1 x2 rg cu,
   inside l0 u0 x0 -> inside l1 u1 x1 -> inside l2 u2 x2 ->
   0 < E2 om ok zs1 -> 0 < E2 om ok zs2b -> 0 < E2 om ok 1100 -> 0 < 1 - om - ok ->
